@@ -175,42 +175,35 @@ def section_boundaries(m, size):
 
 
 def crash_images(oslog, final, m, rng, exhaustive=False, max_images=None, seen=None, truncations=True):
-    """Returns [(descriptor, bytes)] — deduplicated (also against `seen`), never equal to the complete
-    file.  With max_images: every prefix, every first/last-byte cut and every section-boundary
-    truncation is kept, the remaining cuts are sampled by the seeded stream."""
+    """Generator of (descriptor, bytes) — deduplicated by content (also against `seen`), never equal to
+    the complete file.  Two passes: the descriptors are enumerated and, with max_images, selected first
+    (every prefix, every first / last-byte cut and every section-boundary truncation is kept, the remaining
+    cuts are sampled by the seeded stream); the images are then built one at a time, so that a large file
+    costs time, not memory."""
     seen = seen if seen is not None else set()
     seen.add(hashlib.sha1(final).digest())
-    out = []
-    prio = []
-
-    def emit(desc, img, p=1):
-        h = hashlib.sha1(img).digest()
-        if h not in seen:
-            seen.add(h)
-            out.append((desc, bytes(img)))
-            prio.append(p)
-    # the whole simulated disk is replayed (the writer may write a temporary file and rename it);
-    # a crash image is the content of the output path at that instant, if it exists at all
-    files = {}
+    # ---- pass 1: descriptors
+    descs = []          # (descriptor, priority)
     k = 0
+    exists = False
     for entry in oslog:
         if entry[3] in ('trunc', 'fsync', 'initial'):
-            storage.SimFS.apply_fs(files, entry)          # 'initial': what the path held before the writer ran
-            if entry[3] == 'initial':
-                seen.add(hashlib.sha1(entry[5]).digest())  # the old complete file is not a partial file
+            exists = exists or entry[1] == OUT
             continue
-        if OUT in files:
-            emit(['prefix', k], files[OUT], 0)
+        if exists:
+            descs.append((('prefix', k), 0))
         if entry[3] == 'write' and entry[1] == OUT:
             n = len(entry[5])
             for c in _cuts(entry[4], n, rng):
-                t = bytearray(files.get(OUT, b''))
-                storage.SimFS.apply(t, entry, upto=c)
-                emit(['torn', k, c], t, 0 if (c in (1, n - 1) or n < 2048) else 1)
-        storage.SimFS.apply_fs(files, entry)
+                descs.append((('torn', k, c), 0 if (c in (1, n - 1) or n < 2048) else 1))
+            exists = True
+        elif entry[3] == 'rename' and entry[1] == OUT:
+            exists = True
+        elif entry[3] == 'remove' and entry[1] == OUT:
+            exists = False
+        elif entry[1] == OUT:
+            exists = True
         k += 1
-    if bytes(files.get(OUT, b'')) != final:
-        raise core.HarnessError('OS-level write log does not rebuild the final file')
     size = len(final)
     bounds = set(section_boundaries(m, size)) if truncations else set()
     if not truncations:
@@ -225,18 +218,64 @@ def crash_images(oslog, final, m, rng, exhaustive=False, max_images=None, seen=N
             ns.add(rng.randrange(size))
         ns = sorted(ns)
     for n in ns:
-        emit(['trunc', n], final[:n], 0 if n in bounds else 1)
-    if max_images is not None and not exhaustive and len(out) > max_images:
-        must = [i for i, p in enumerate(prio) if p == 0]
-        rest = [i for i, p in enumerate(prio) if p != 0]
+        descs.append((('trunc', n), 0 if n in bounds else 1))
+    if max_images is not None and not exhaustive and len(descs) > max_images:
+        must = [i for i, (_, p) in enumerate(descs) if p == 0]
+        rest = [i for i, (_, p) in enumerate(descs) if p != 0]
         if len(must) > max_images:
             must = sorted(rng.sample(must, max_images))
             rest = []
         else:
             rest = rng.sample(rest, max_images - len(must))
-        keep = sorted(must + rest)
-        out = [out[i] for i in keep]
-    return out
+        keep = {descs[i][0] for i in must + rest}
+    else:
+        keep = {d for d, _ in descs}
+    return _build_images(oslog, final, keep, seen)
+
+
+def _tagged(images, tag):
+    for d, img in images:
+        yield [d[0] + '@' + tag] + d[1:], img
+
+
+def _build_images(oslog, final, keep, seen):
+    # ---- pass 2: the whole simulated disk is replayed (the writer may write a temporary file and rename
+    # it); a crash image is the content of the output path at that instant, if it exists at all
+    def emit(desc, img):
+        h = hashlib.sha1(img).digest()
+        if h not in seen:
+            seen.add(h)
+            return (list(desc), bytes(img))
+        return None
+    files = {}
+    k = 0
+    for entry in oslog:
+        if entry[3] in ('trunc', 'fsync', 'initial'):
+            storage.SimFS.apply_fs(files, entry)          # 'initial': what the path held before the writer ran
+            if entry[3] == 'initial':
+                seen.add(hashlib.sha1(entry[5]).digest())  # the old complete file is not a partial file
+            continue
+        if OUT in files and ('prefix', k) in keep:
+            r = emit(('prefix', k), files[OUT])
+            if r:
+                yield r
+        if entry[3] == 'write' and entry[1] == OUT:
+            cuts = sorted(d[2] for d in keep if d[0] == 'torn' and d[1] == k)
+            for c in cuts:
+                t = bytearray(files.get(OUT, b''))
+                storage.SimFS.apply(t, entry, upto=c)
+                r = emit(('torn', k, c), t)
+                del t
+                if r:
+                    yield r
+        storage.SimFS.apply_fs(files, entry)
+        k += 1
+    if bytes(files.get(OUT, b'')) != final:
+        raise core.HarnessError('OS-level write log does not rebuild the final file')
+    for n in sorted(d[1] for d in keep if d[0] == 'trunc'):
+        r = emit(('trunc', n), final[:n])
+        if r:
+            yield r
 
 
 def rebuild_image(oslog, final, desc):
@@ -350,10 +389,11 @@ def one_item(ctx, item):
                                         for k in ('reader', 'emulator', 'xarray')})
     seen = set()
     ex = item.get('exhaustive', False)
-    images = crash_images(oslog, final, m, rng, exhaustive=tuple(ex) if isinstance(ex, list) else ex,
-                          max_images=ctx['max_images'], seen=seen)
+    streams = [crash_images(oslog, final, m, rng, exhaustive=tuple(ex) if isinstance(ex, list) else ex,
+                            max_images=ctx['max_images'], seen=seen)]
     if isinstance(ex, list):
-        images = [im for im in images if im[0][0] == 'trunc']      # the shards share the prefixes: done by the plain item
+        # the shards share the prefixes: done by the plain item
+        streams = [(im for im in streams[0] if im[0][0] == 'trunc')]
     rec['alt_schedules'] = 0
     if item['w'] == 'convert' and not item.get('exhaustive'):
         # the same conversion under other schedules: where the bytes reach the OS in another order, the
@@ -366,9 +406,10 @@ def one_item(ctx, item):
                 continue             # (different final bytes are C16's finding, not examined here)
             rec['alt_schedules'] += 1
             more = crash_images(oslog2, final, m, rng, max_images=ctx['max_images'], seen=seen, truncations=False)
-            images += [([d[0] + '@' + pol + ':' + str(j)] + d[1:], img) for d, img in more]
+            streams.append(_tagged(more, f'{pol}:{j}'))
     sig_seen = set()
-    for i, (desc, img) in enumerate(images):
+    import itertools
+    for i, (desc, img) in enumerate(itertools.chain(*streams)):
         opener = OPENER_CYCLE[(i + item['id']) % len(OPENER_CYCLE)]
         if opener == 'xarray' and (m['is_2d'] or not readers.HAVE_XARRAY):
             opener = 'path'
